@@ -63,6 +63,7 @@ type FnCtx struct {
 	ghostDefs     map[string]bool
 	nq            int
 	named         map[string]string
+	replay        []*replayParam
 	freshObj      map[string]bool // refs allocated in this function (not yet shared: no lock needed)
 	loopHead      map[*ssa.BasicBlock]*State
 	modTargets    []modTarget
